@@ -104,7 +104,7 @@ def _shape_init(eng, loc):
     return len(args) == 1 and isinstance(args[0], (DictVal, PObj)) and (not isinstance(args[0], PObj) or args[0].store is not None)
 
 
-contract("qubovert.utils._dict_arithmetic:DictArithmetic.__init__", props=["C05", "C19"],
+contract("qubovert.utils._dict_arithmetic:DictArithmetic.__init__", props=["C05", "C14", "C19"],
          instances=[{"self": "newmodel:" + c, "args": a, "kwargs": "emptydict"} for c in ALL
                     for a in ("tuple:", "tuple:termdict", "tuple:model:" + c)],
          call_when=_shape_init,
@@ -119,7 +119,7 @@ contract("qubovert.utils._pubomatrix:PUBOMatrix.clear", props=["C05", "C14"],
          instances=[{"self": "model:" + c} for c in ALL],
          returns="none", effects=[("store(self)", "empty_store()")], modifies=RESET, ensures=["bk(self)"])
 
-contract("qubovert.utils._dict_arithmetic:DictArithmetic.copy", props=["C05", "C19"],
+contract("qubovert.utils._dict_arithmetic:DictArithmetic.copy", props=["C05", "C14", "C19"],
          instances=[{"self": "model:" + c} for c in ALL],
          requires=["wf(self)"],
          returns=lambda env, eng: "fresh:model:" + env["self"].cls.name,
@@ -132,7 +132,7 @@ def _others(c):
 
 
 for op, sign in (("__iadd__", "+"), ("__isub__", "-")):
-    contract("qubovert.utils._dict_arithmetic:DictArithmetic." + op, props=["C05"],
+    contract("qubovert.utils._dict_arithmetic:DictArithmetic." + op, props=["C05", "C14"],
              instances=[{"self": "model:" + c, "other": o} for c in ALL for o in _others(c)],
              requires=["wf(self)", "isnumber(other) or keysvalid(self, other)",
                        "isnumber(other) or distinct(self, other)"],
@@ -142,7 +142,7 @@ for op, sign in (("__iadd__", "+"), ("__isub__", "-")):
              loops={1: {"invariant": "den(self) == old(den(self)) %s den_as(self, visited) and wf(self) and "
                                      "implies(old(bk(self)), bk(self))" % sign}})
 
-contract("qubovert.utils._dict_arithmetic:DictArithmetic.__imul__", props=["C05"],
+contract("qubovert.utils._dict_arithmetic:DictArithmetic.__imul__", props=["C05", "C14"],
          instances=[{"self": "model:" + c, "other": o} for c in PTYPES for o in _others(c)] +
                    [{"self": "model:" + c, "other": "real"} for c in ("QUBO", "QUSO", "QUBOMatrix", "QUSOMatrix")],
          requires=["wf(self)", "isnumber(other) or keysvalid(self, other)",
@@ -157,7 +157,7 @@ contract("qubovert.utils._dict_arithmetic:DictArithmetic.__imul__", props=["C05"
                                  "forall_key(lambda q: implies(not has(visited, q), has(self, q) == has(coll, q) and "
                                  "lookup(self, q) == lookup(coll, q)))"}})
 
-contract("qubovert.utils._dict_arithmetic:DictArithmetic.__itruediv__", props=["C05"],
+contract("qubovert.utils._dict_arithmetic:DictArithmetic.__itruediv__", props=["C05", "C14"],
          instances=[{"self": "model:" + c, "other": "real"} for c in ALL],
          requires=["wf(self)", "other != 0"],
          returns="param:self", modifies=STORE_BK,
@@ -166,7 +166,7 @@ contract("qubovert.utils._dict_arithmetic:DictArithmetic.__itruediv__", props=["
                                  "forall_key(lambda q: implies(not has(visited, q), has(self, q) == has(coll, q) and "
                                  "lookup(self, q) == lookup(coll, q)))"}})
 
-contract("qubovert.utils._dict_arithmetic:DictArithmetic.__ipow__", props=["C05"],
+contract("qubovert.utils._dict_arithmetic:DictArithmetic.__ipow__", props=["C05", "C14"],
          instances=[{"self": "model:" + c, "exponent": "const:%d" % e} for c in PTYPES for e in (1, 2, 3)] +
                    [{"self": "model:" + c, "exponent": "const:1"} for c in ("QUBO", "QUSO", "QUBOMatrix", "QUSOMatrix")],
          requires=["wf(self)"],
